@@ -554,8 +554,13 @@ func runC18(r *Run) {
 			if !isR {
 				return
 			}
-			nRet++
 			c, isC := ret.Results[0].(*ssa.Call)
+			// without a base fee (London inactive) the price is the fee cap, as in go-ethereum: a return of the fee cap
+			// alone is the nil-base-fee answer (R11 checks that the helper is reached only with a base fee)
+			if isC && callInfo(c).Name == "GetGasFeeCap" {
+				return
+			}
+			nRet++
 			if !isC || callInfo(c).Name != "EffectiveGasPrice" || callInfo(c).Recv != "" || len(c.Call.Args) != 3 {
 				okE = false
 				return
@@ -568,7 +573,7 @@ func runC18(r *Run) {
 				okE = false
 			}
 		})
-		r.Check(okE && nRet == 1, "R4", fnID(fn)+"#single-definition", P.Pos(fnPos(fn)), "returns EffectiveGasPrice(baseFee, feeCap, tipCap) and nothing else", "DynamicFeeTx.EffectiveGasPrice is not the single expression EffectiveGasPrice(baseFee, GetGasFeeCap(), GetGasTipCap()): effective price/fee/cost figures derived from the message can differ from go-ethereum's for the same transaction")
+		r.Check(okE && nRet == 1, "R4", fnID(fn)+"#single-definition", P.Pos(fnPos(fn)), "returns EffectiveGasPrice(baseFee, feeCap, tipCap) (or the fee cap when there is no base fee)", "DynamicFeeTx.EffectiveGasPrice is not the single expression EffectiveGasPrice(baseFee, GetGasFeeCap(), GetGasTipCap()): effective price/fee/cost figures derived from the message can differ from go-ethereum's for the same transaction")
 	}
 	for _, tn := range []string{"LegacyTx", "AccessListTx"} {
 		var fn *ssa.Function
@@ -802,6 +807,41 @@ func runC18(r *Run) {
 		}
 		r.Check(okAll && nRet >= 1 && !onParam, "R10", fnID(fn)+"#delegates", P.Pos(fnPos(fn)), "returns txData."+g.callee+"(…) itself, no branch on the base fee",
 			"the message-level getter does not simply return the tx data's "+g.callee+"(): for some inputs (a zero base fee) the figure derived from the message differs from the one go-ethereum derives from the original transaction")
+	}
+
+	// ---------- R11: every arbitrary-precision field is bounded before it is stored; nil base fee ----------
+	r.Rule("R11", "PATH.wire-integers-bounded-before-storing + nil-base-fee: (a) the constructors that wrap a typed Ethereum transaction (newAccessListTx, NewDynamicFeeTx) store the chain id with SetSignatureValues, which converts with the panicking NewIntFromBigInt — the call is reachable only after an error-checked SafeNewIntFromBigInt / IsValidInt256 of a value derived from tx.ChainId(), as for every amount field: a chain id above 256 bits must be an error like for a legacy transaction, not a panic; (b) DynamicFeeTx.EffectiveGasPrice reaches the arithmetic helper only over the edge on which the base fee is not nil — without a base fee (London inactive) go-ethereum prices the transaction at its fee cap, the helper dereferences the nil and the minimum-gas-price decorator panics on every dynamic-fee transaction")
+	for _, id := range []string{evmTypes + ".newAccessListTx", evmTypes + ".NewDynamicFeeTx"} {
+		fn, ok := P.FnOK(id)
+		if !ok {
+			r.Bad("R11", "anchor/"+id, "", "not found")
+			continue
+		}
+		isBound := isCallMatching(func(ci CallInfo) bool {
+			if !(ci.Name == "SafeNewIntFromBigInt" || ci.Name == "IsValidInt256") {
+				return false
+			}
+			return backSlice(ci.Instr.Common().Args...).HasCall(func(g CallInfo) bool { return g.Name == "ChainId" })
+		})
+		isStore := isCallMatching(func(ci CallInfo) bool { return ci.Name == "SetSignatureValues" })
+		w := PathQuery{Fn: fn, Block: isBound, Target: isStore}.Search()
+		r.Check(w == nil, "R11", fnID(fn)+"#chain-id-bounded", P.Pos(fnPos(fn)), "SetSignatureValues only after the chain id passed the 256-bit bound",
+			"the constructor stores tx.ChainId() without bounding it first: a signed typed transaction with a chain id above 256 bits makes wrapping panic instead of returning an error (a legacy transaction with the same chain id round-trips)", P.witness(w)...)
+	}
+	if eg, ok := P.FnOK("(*" + evmTypes + ".DynamicFeeTx).EffectiveGasPrice"); ok {
+		var bp *ssa.Parameter
+		for _, p := range eg.Params {
+			if p.Name() == "baseFee" {
+				bp = p
+			}
+		}
+		_, ne := condEdges(eg, func(x, y ssa.Value) bool { return bp != nil && stripValue(x) == ssa.Value(bp) && isNilConst(y) })
+		isHelper := isCallMatching(func(ci CallInfo) bool { return ci.Name == "EffectiveGasPrice" && ci.Recv == "" })
+		w := PathQuery{Fn: eg, Target: isHelper, DelEdge: edgeSet(ne)}.Search()
+		r.Check(w == nil && len(ne) > 0, "R11", fnID(eg)+"#nil-base-fee", P.Pos(fnPos(eg)), "the arithmetic helper is reached only with a non-nil base fee",
+			"DynamicFeeTx.EffectiveGasPrice hands a possibly nil base fee to the arithmetic helper (tip + baseFee): with London inactive the figures derived from the message panic, where go-ethereum answers the fee cap", P.witness(w)...)
+	} else {
+		r.Bad("R11", "anchor/DynamicFeeTx.EffectiveGasPrice", "", "not found")
 	}
 
 	// ---------- R9: the 256-bit bound admits the all-ones word ----------
